@@ -584,6 +584,61 @@ def r15_8(ctx, rep):
         raise MechanismMissing(R, "expected the positive and the negative alias registration")
 
 
+def _cmp_names(call):
+    """names compared by is_equal(veccat(*A), veccat(*B), depth) / is_equal(A, B)"""
+    out = []
+    for a in call.args[:2]:
+        while isinstance(a, ast.Call) and a.args:
+            a = a.args[0]
+        if isinstance(a, ast.Starred):
+            a = a.value
+        out.append(a.id if isinstance(a, ast.Name) else None)
+    return out
+
+
+@SPEC.rule(
+    "R15.9",
+    "the fixed-point loops compare the previous values with the new ones: at every `is_equal(A, B)` convergence test in "
+    "Model._simplify_once, no assignment `A = B` (or `B = A`) reaches the test without B (A) being recomputed in between — a loop "
+    "that copies the new values over the old ones before comparing them always reports convergence after one pass, and chains of "
+    "parameter / constant / eliminated-variable definitions are then substituted only one level deep",
+)
+def r15_9(ctx, rep):
+    R = "R15.9"
+    fn = simplify_fn(ctx, R)
+    site = MODEL + ":Model._simplify_once"
+    cfg = CFG(fn, R)
+    n = 0
+    for x in cfg.nodes:
+        if x.kind not in ("stmt", "test") or x.ast is None or isinstance(x.ast, (ast.FunctionDef, ast.ClassDef)):
+            continue
+        for c in calls(x.ast):
+            if not ((call_name(c) or "").split(".")[-1] == "is_equal" and len(c.args) >= 2):
+                continue
+            a, b = _cmp_names(c)
+            if a is None or b is None:
+                continue
+            n += 1
+            same = a == b
+            witness = None
+            if not same:
+                for y in cfg.stmts():
+                    if isinstance(y.ast, ast.Assign) and len(y.ast.targets) == 1 and isinstance(y.ast.targets[0], ast.Name) and isinstance(y.ast.value, ast.Name) \
+                            and {y.ast.targets[0].id, y.ast.value.id} == {a, b}:
+                        kills = {z.id for z in cfg.stmts() if z.id != y.id and isinstance(z.ast, (ast.Assign, ast.AugAssign)) and any(
+                            isinstance(t, ast.Name) and t.id in (a, b) for t in (z.ast.targets if isinstance(z.ast, ast.Assign) else [z.ast.target]))}
+                        w = cfg.must_pass(y.id, x.id, kills)
+                        if w is not None:
+                            witness = (y, w)
+                            break
+            rep.ob(R, site, "convergence test #%d compares two different generations (%s vs %s, line %d)" % (n, a, b, x.lineno), not same and witness is None,
+                   "`%s` reaches the test `%s` with nothing recomputed in between: both operands are the same list, the loop stops after "
+                   "its first pass and definitions that refer to other definitions stay half substituted" % (norm(witness[0].ast) if witness else a + " is " + b, norm(c)[:70]),
+                   path=cfg.describe(witness[1]) if witness else "")
+    if n < 3:
+        raise MechanismMissing(R, "expected at least three is_equal convergence tests in _simplify_once, found %d" % n)
+
+
 # -- seeded variants ---------------------------------------------------------
 from ._mut import delete_stmt_where, replace_in_func, replace_stmt_where  # noqa: E402
 
@@ -774,6 +829,22 @@ def _m_related(mod):
                     and len(n.body) == 1 and isinstance(n.body[0], ast.Pass):
                 n.test = ast.Constant(value=False)
                 return True
+        return False
+
+    return mod if replace_in_func(mod, "Model._simplify_once", edit) else None
+
+
+@SPEC.mutant("new values copied over the old ones before the convergence test", MODEL, "R15.9", "two different generations")
+def _m_fixpoint(mod):
+    def edit(fn):
+        for loop in ast.walk(fn):
+            if isinstance(loop, ast.For) and "SUBSTITUTE_LOOP_LIMIT" in norm(loop.iter):
+                idx = [i for i, st in enumerate(loop.body) if norm(st) == "values = new_values"]
+                cmp_ = [i for i, st in enumerate(loop.body) if "is_equal" in norm(st)]
+                if idx and cmp_ and idx[0] > cmp_[0]:
+                    st = loop.body.pop(idx[0])
+                    loop.body.insert(cmp_[0], st)
+                    return True
         return False
 
     return mod if replace_in_func(mod, "Model._simplify_once", edit) else None
